@@ -424,10 +424,10 @@ func runC05(r *core.Run) {
 	flamego.SetEnv(flamego.EnvTypeProd)
 	defer flamego.SetEnv(orig)
 
-	rounds := r.N(30, 600)
+	rounds := r.N(30, 300)
 	gor, per := 32, 60
 	if r.Thorough() {
-		gor, per = 64, 200
+		gor, per = 64, 120
 	}
 	st := &c05Stats{}
 	w := r.Serial()
